@@ -2510,13 +2510,10 @@ def lower_merged_handlers(repo):
                     new_handlers.append(h)
                     continue
                 ends = iff.body and isinstance(iff.body[-1], (ast.Raise, ast.Return))
-                if not ends and not iff.orelse and rest[1:]:
-                    new_handlers.append(h)
-                    continue
                 name = h.name or X
                 bind = [] if h.name == X or not any(isinstance(a, ast.Assign) and a.targets[0].id == X for a in pre) else []
                 pre_wo = [a for a in pre if not (a.targets[0].id == X and ast.unparse(a.value) == 'sys.exc_info()[1]')]
-                body_a = copy.deepcopy(pre_wo) + copy.deepcopy(iff.body)
+                body_a = copy.deepcopy(pre_wo) + copy.deepcopy(iff.body) + ([] if ends else copy.deepcopy(rest[1:]))
                 body_b = copy.deepcopy(pre_wo) + (copy.deepcopy(iff.orelse) if iff.orelse else []) + copy.deepcopy(rest[1:])
                 if not body_b:
                     body_b = [ast.Pass()]
